@@ -8,6 +8,7 @@ import (
 	"testing"
 
 	"github.com/cloudflare/circl/zz_verif/vlib"
+	"pgregory.net/rapid"
 )
 
 func c12ModQ(x int64) int64 { return ((x % 3329) + 3329) % 3329 }
@@ -153,4 +154,196 @@ func TestVerifC12KyberPolyReduce(t *testing.T) {
 	if vlib.Shard == 0 {
 		vlib.Exhaustive("C12 kyber Poly.Normalize / Poly.BarrettReduce ("+backend+" and generic): all 2^16 int16 in all 16 lane positions", 4*16*65536, "all shards together")
 	}
+}
+
+// ---------------------------------------------------------------------------
+// Poly.Add / Sub / MulHat / ToMont over the whole documented input range, on the
+// dispatched back-end (AVX2 where the CPU has it; it works on "tangled" order)
+// and on the generic code, against integer arithmetic mod q.
+
+const c12Q = 3329
+
+var c12PolyEdges = []int32{0, 1, -1, 2, -2, c12Q - 1, -(c12Q - 1), c12Q, -c12Q, c12Q + 1, -(c12Q + 1), 2 * c12Q, -2 * c12Q, 7 * c12Q, -7 * c12Q, 1 << 12, -(1 << 12), 1 << 14, -(1 << 14), 1<<15 - 1, -(1 << 15), -(1<<15 - 1)}
+
+// c12Coef draws a coefficient with lo ≤ c ≤ hi: an edge that fits, a bound ∓ d, or uniform.
+func c12Coef(t *rapid.T, lo, hi int32, label string) int16 {
+	switch rapid.IntRange(0, 3).Draw(t, label+".k") {
+	case 0, 1:
+		e := c12PolyEdges[rapid.IntRange(0, len(c12PolyEdges)-1).Draw(t, label+".e")]
+		if e >= lo && e <= hi {
+			return int16(e)
+		}
+		if e < lo {
+			return int16(lo)
+		}
+		return int16(hi)
+	case 2:
+		d := int32(rapid.IntRange(0, 2).Draw(t, label+".d"))
+		if rapid.Bool().Draw(t, label+".top") {
+			if hi-d >= lo {
+				return int16(hi - d)
+			}
+			return int16(hi)
+		}
+		if lo+d <= hi {
+			return int16(lo + d)
+		}
+		return int16(lo)
+	}
+	return int16(rapid.Int32Range(lo, hi).Draw(t, label+".u"))
+}
+
+func c12Abs(x int32) int32 {
+	if x < 0 {
+		return -x
+	}
+	return x
+}
+
+func TestVerifC12KyberPoly(t *testing.T) {
+	defer vlib.Done()
+	const q = int64(c12Q)
+	const sub = "kyber.poly"
+	const lo16, hi16 = int32(-32768), int32(32767)
+	backend := "generic-dispatch"
+	if c12HasAVX2() {
+		backend = "avx2"
+	}
+	mulBound := int32(1<<15) * c12Q // products strictly below 2^15·q in absolute value
+	vlib.Check(t, vlib.N(2500, 25000), func(t *rapid.T) {
+		op := rapid.SampledFrom([]string{"MulHat", "MulHat", "Add", "Sub", "ToMont"}).Draw(t, "op")
+		vlib.Eval(sub)
+		vlib.Class(sub, "op="+op)
+		var a, b Poly
+		near := false
+		for i := 0; i < N; i += 2 {
+			a[i], a[i+1] = c12Coef(t, lo16, hi16, "a"), c12Coef(t, lo16, hi16, "a")
+			switch op {
+			case "MulHat":
+				// every product of a coefficient of the pair of a with one of the pair of b must stay below the bound
+				m := c12Abs(int32(a[i]))
+				if x := c12Abs(int32(a[i+1])); x > m {
+					m = x
+				}
+				lim := hi16
+				if m != 0 {
+					if l := (mulBound - 1) / m; l < lim {
+						lim = l
+					}
+				}
+				l := -lim
+				if lim == hi16 && m != 0 && int64(m)*32768 < int64(mulBound) {
+					l = lo16
+				}
+				if m == 0 {
+					l = lo16
+				}
+				b[i], b[i+1] = c12Coef(t, l, lim, "b"), c12Coef(t, l, lim, "b")
+				if lim < hi16 && (c12Abs(int32(b[i])) >= lim-2 || c12Abs(int32(b[i+1])) >= lim-2) {
+					near = true
+				}
+			case "Add":
+				// sums and differences must fit a coefficient
+				for k := i; k < i+2; k++ {
+					l, h := lo16-int32(a[k]), hi16-int32(a[k])
+					if l < lo16 {
+						l = lo16
+					}
+					if h > hi16 {
+						h = hi16
+					}
+					b[k] = c12Coef(t, l, h, "b")
+				}
+			case "Sub":
+				for k := i; k < i+2; k++ {
+					l, h := int32(a[k])-hi16, int32(a[k])-lo16
+					if l < lo16 {
+						l = lo16
+					}
+					if h > hi16 {
+						h = hi16
+					}
+					b[k] = c12Coef(t, l, h, "b")
+				}
+			}
+		}
+		fail := func(be, class, detail string) {
+			vlib.Report(t, "C12/kyber.poly/"+op+"/"+be+"/"+class, detail)
+		}
+		for _, be := range []string{backend, "generic"} {
+			var p Poly
+			switch op {
+			case "Add", "Sub":
+				switch {
+				case op == "Add" && be == "generic":
+					p.addGeneric(&a, &b)
+				case op == "Add":
+					p.Add(&a, &b)
+				case be == "generic":
+					p.subGeneric(&a, &b)
+				default:
+					p.Sub(&a, &b)
+				}
+				for i := range p {
+					want := int32(a[i]) + int32(b[i])
+					if op == "Sub" {
+						want = int32(a[i]) - int32(b[i])
+					}
+					if int32(p[i]) != want {
+						fail(be, "wrong-result", fmt.Sprintf("coefficient %d: %s(%d, %d) gave %d", i, op, a[i], b[i], p[i]))
+						return
+					}
+				}
+			case "ToMont":
+				if be != "generic" {
+					continue // ToMont has a single implementation
+				}
+				p = a
+				p.ToMont()
+				for i := range p {
+					// arbitrary input; result ≡ x·2^16 and bounded in absolute value by q
+					if c12Abs(int32(p[i])) > c12Q || c12ModQ(int64(p[i])) != c12ModQ(int64(a[i])*65536) {
+						fail(be, "wrong-result", fmt.Sprintf("ToMont(%d) gave %d", a[i], p[i]))
+						return
+					}
+				}
+			case "MulHat":
+				if be == "generic" {
+					p.mulHatGeneric(&a, &b)
+				} else {
+					x, y := a, b
+					x.Tangle()
+					y.Tangle()
+					p.MulHat(&x, &y)
+					p.Detangle()
+				}
+				// (a0 + a1·X)(b0 + b1·X) mod (X² ∓ ζ), every product carrying the Montgomery factor 2^-16
+				const rinv = 169
+				k := 64
+				for i := 0; i < N; i += 4 {
+					zeta := c12ModQ(int64(Zetas[k]))
+					k++
+					for h, sign := range []int64{1, -1} {
+						j := i + 2*h
+						a0, a1, b0, b1 := int64(a[j]), int64(a[j+1]), int64(b[j]), int64(b[j+1])
+						w0 := c12ModQ(c12ModQ(c12ModQ(a1*b1)*rinv)*zeta%q*rinv*sign + c12ModQ(a0*b0)*rinv)
+						w1 := c12ModQ(c12ModQ(a0*b1)*rinv + c12ModQ(a1*b0)*rinv)
+						if c12ModQ(int64(p[j])) != w0 || c12ModQ(int64(p[j+1])) != w1 || c12Abs(int32(p[j])) > 2*c12Q || c12Abs(int32(p[j+1])) > 2*c12Q {
+							fail(be, "wrong-result", fmt.Sprintf("pair at %d: a=(%d,%d) b=(%d,%d): MulHat gave (%d,%d), want ≡ (%d,%d) and |·| ≤ 2q", j, a[j], a[j+1], b[j], b[j+1], p[j], p[j+1], w0, w1))
+							return
+						}
+					}
+				}
+			}
+		}
+		vlib.Class(sub, "backend="+backend+"+generic")
+		if near {
+			vlib.Class(sub, "mulhat-product-just-below-2^15q")
+		}
+		raw := make([]byte, 0, 4*N)
+		for i := range a {
+			raw = append(raw, byte(a[i]), byte(uint16(a[i])>>8), byte(b[i]), byte(uint16(b[i])>>8))
+		}
+		vlib.NonTrivialH(sub, "", vlib.Hash64([]byte(op), raw))
+	})
 }
